@@ -305,8 +305,9 @@ def mk_axl2axi(dw, aw, small=False, tag="", defaults=False, wid=1, rid=2, prot=5
     code = {"FIXED": 0, "INCR": 1, "WRAP": 2}[burst]
     name = "AXILite2AXI(dw=%d,aw=%d,%s,ids %d/%d,prot %d%s)%s" % (dw, aw, burst, wid, rid, prot,
                                                                 ",defaults" if defaults else "", tag)
-    return PortInst(name, m, "axl2axi %d %d %d %d %d" % (log2(nb), code, prot, wid, rid), "axl", axl,
-                    s_ports=s_ports, dom=dom, m_par=dict(dw=dw, aw=aw), s_par={"widths": fw})
+    mon = lambda inst: L.AxiAttrMonitor(inst, nb, full=True, wrap_len_free=True)
+    return PortInst(name, m, "axl2axi %d %d %d %d %d" % (dw, code, prot, wid, rid), "axl", axl,
+                    s_ports=s_ports, dom=dom, monitor=mon, m_par=dict(dw=dw, aw=aw), s_par={"widths": fw})
 
 
 def mk_ahb2wb(dw, aw, addressing="word", pol=None, small=False, p_err=0.0, tag=""):
@@ -389,7 +390,7 @@ def mk_wb2axi(dw, aw, base=0, pol=None, small=False, tag=""):
         amax = (1 << (aw - shift)) - 1
         dom = {"adr": (0, amax), "datw": ((1 << dw) - 1,), "sel": ((1 << nb) - 1,), "rdata": ((1 << dw) - 2,),
                "bresp": (0, 2), "rresp": (0, 3), "bid": (0,), "rid": (0,), "rlast": (1,)}
-    return PortInst(name, m, "wb2axi %d %d %d %d" % (aw - shift, shift, base, shift), "wb", wb, "axi", axi, dom=dom,
+    return PortInst(name, m, "wb2axi %d %d %d %d" % (aw - shift, shift, base, dw), "wb", wb, "axi", axi, dom=dom,
                     env=env, monitor=mon, m_par=dict(dw=dw, aw=aw, adr=aw - shift), s_par=dict(dw=dw, aw=aw, idw=1))
 
 
@@ -590,6 +591,24 @@ def jobs(tier):
     B(lambda: mk_wb2axl(64, 32, base=0x1000, pol="pipeline2", p_err=0.1))
     B(lambda: mk_wb2axl(32, 16, base=0x30, addressing="byte", pol="accept-early", p_err=0.1))
     B(lambda: mk_wb2axl(32, 32, base=0x2000, tag="/garbage"))
+    # ---- wide buses (256 / 512 / 1024 bits) for every bridge that takes a data width: short runs (the width-dependent
+    #      constants - AxSIZE, select/strobe widths, address shifts - show in the first transactions)
+    W = lambda mk: J.append(Job("B", mk, cycles=400 if quick else 1500, runs=1))
+    for dw in (256, 512, 1024):
+        W(lambda dw=dw: mk_axl2axi(dw, 32))
+        W(lambda dw=dw: mk_axl2axi(dw, 64, defaults=True))
+        W(lambda dw=dw: mk_wb2axi(dw, 32, base=0x1000, pol="fast"))
+        W(lambda dw=dw: mk_axi2axl(dw, 32, pol="fast", master=dict(max_len=3)))
+        W(lambda dw=dw: mk_axl2wb(dw, 32, base=0x1000, pol="fast"))
+        W(lambda dw=dw: mk_wb2axl(dw, 32, base=0x1000, pol="fast"))
+        if quick and dw != 512:
+            continue
+        W(lambda dw=dw: mk_axi2wb(dw, 32, base=0, pol="fast"))
+        W(lambda dw=dw: mk_axlsram(dw, 32, 8, master="busy"))
+        W(lambda dw=dw: mk_axldown(dw, dw // 2, 32, pol="fast", master="busy"))
+        W(lambda dw=dw: mk_axlup(dw // 2, dw, 32, pol="fast", master="aw-then-w-busy"))
+    W(lambda: mk_adapter("axi-lite", 256, "axi", 256, "m2s", "fast"))
+    W(lambda: mk_adapter("wishbone", 512, "axi", 512, "m2s", "fast"))
     return J
 
 
